@@ -6,7 +6,7 @@
    3. hence an evaluateAll over a duplicate-free registry after which every registered property has the value it had before has
       called no observer at all, and in any case no unregistered property changed. *)
 From KDB Require Import Util UtilProofs PropDefs PropFlags PropLink PropLinkBasics PropLinkOps PropLinkTheorems PropSim PropSimLazy PropGrowLazy.
-From KDB Require PropAbs PropAbsProofs PropAbsLazy PropProofs PropCheck PropMove PropMoveLazy.
+From KDB Require PropAbs PropAbsProofs PropAbsLazy PropProofs PropCheck PropMove PropMoveLazy PropMixed.
 Module L := PropAbsLazy.
 Module A := PropAbs.
 
@@ -285,6 +285,126 @@ Section Notify.
     Proof.
       intros HSC HC He Hst ND HL Htg H1 H2. rewrite (lazy_second_evalall_identity fuel w e st w1 HSC HC He Hst ND HL Htg H1) in H2.
       inversion H2; subst. split; reflexivity.
+    Qed.
+
+    (* ---- 5. the exact record of one assignment in a world of evaluator-driven bindings: the change protocol of C03 with bindings
+       reading the property (their nodes are only marked: nothing is recorded for them) ---- *)
+    Definition lazyw (w : world) : Prop := forall b x, get_bind w b = Some x -> b_evp x <> 0.
+
+    Lemma walk_lazy_trace R t p k payload tb :
+      k = KAbout \/ k = KChanged ->
+      (forall x ser label act, nth_error (t_slots tb) x = Some (Some (ser, SObs label act)) -> act = None) ->
+      forall idxs w w', get_table w t = Some tb -> lazyw w ->
+        walk fn rtl R w t p k payload idxs = (w', None) ->
+        w_trace w' = rev (map (fun label => EvNotify label k payload (values w p)) (PropProofs.labels_at tb idxs)) ++ w_trace w /\
+        w_tables w' = w_tables w /\ w_props w' = w_props w /\ lazyw w'.
+    Proof.
+      intros Hk Hact. induction idxs as [|x r IH]; intros w w' Ht Hlz H; cbn [walk PropProofs.labels_at flat_map] in *.
+      - inversion H; subst. repeat split; auto.
+      - rewrite Ht in H. destruct (nth_error (t_slots tb) x) as [[[ser s]|]|] eqn:Hx; [|exact (IH w w' Ht Hlz H)..].
+        destruct s as [label act|b l]; cbn [deliver] in H.
+        + rewrite (Hact _ _ _ _ Hx) in H.
+          set (w1 := log (EvNotify label k payload (values w p)) w) in *.
+          assert (E1 : (match payload with | _ => ok w1 end) = ok w1) by (destruct payload; reflexivity).
+          assert (H1 : walk fn rtl R w1 t p k payload r = (w', None)) by (destruct payload; exact H).
+          destruct (IH w1 w' Ht Hlz H1) as (Htr & Htb & Hpr & Hl'). split; [|auto].
+          rewrite Htr. cbn [app map rev]. rewrite <- app_assoc. reflexivity.
+        + destruct (get_bind w b) as [y|] eqn:Hy; [|discriminate H].
+          destruct Hk as [-> | ->]; [discriminate H|].
+          destruct (mark (b_root y) l) as [[t1 up]|]; [|discriminate H].
+          set (w1 := put_bind w b (bind_with_root y t1)) in *.
+          assert (Hev : Nat.eqb (b_evp y) 0 = false) by (apply Nat.eqb_neq; exact (Hlz _ _ Hy)). rewrite Hev in H.
+          assert (H1 : walk fn rtl R w1 t p KChanged payload r = (w', None)) by (destruct up; exact H).
+          assert (Hlz1 : lazyw w1).
+          { intros c z Hz. unfold w1 in Hz. rewrite (get_bind_put_root _ _ _ _ c Hy) in Hz. destruct (Nat.eqb b c); [|exact (Hlz _ _ Hz)].
+            inversion Hz; subst z. cbn [bind_with_root b_evp]. exact (Hlz _ _ Hy). }
+          destruct (IH w1 w' Ht Hlz1 H1) as (Htr & Htb & Hpr & Hl'). auto.
+    Qed.
+
+    Lemma emit_lazy_trace R w ot p k payload w' :
+      k = KAbout \/ k = KChanged ->
+      (forall t tb x ser label act, ot = Some t -> get_table w t = Some tb -> nth_error (t_slots tb) x = Some (Some (ser, SObs label act)) -> act = None) ->
+      lazyw w -> emit fn rtl R w ot p k payload = (w', None) ->
+      w_trace w' = rev (map (fun label => EvNotify label k payload (values w p)) (PropProofs.all_labels w ot)) ++ w_trace w /\
+      w_tables w' = w_tables w /\ w_props w' = w_props w /\ lazyw w'.
+    Proof.
+      intros Hk Hact Hlz H. destruct ot as [t|]; cbn [emit PropProofs.all_labels] in *; [|inversion H; subst; repeat split; auto].
+      destruct (get_table w t) as [tb|] eqn:Ht; [|discriminate H]. destruct (t_emitting tb) eqn:Hem; [discriminate H|].
+      set (tb1 := {| t_slots := t_slots tb; t_free := t_free tb; t_emitting := true; t_alive := t_alive tb |}) in *.
+      set (w1 := put_table w t tb1) in *.
+      assert (Hlt : t < length (w_tables w)) by (apply nth_error_Some; unfold get_table in Ht; congruence).
+      assert (Ht1 : get_table w1 t = Some tb1) by (unfold get_table, w1, put_table; cbn; apply nth_upd_same; assumption).
+      destruct (walk fn rtl R w1 t p k payload (seq 0 (length (t_slots tb)))) as [w2 [e|]] eqn:Hw.
+      { destruct (get_table w2 t); discriminate H. }
+      destruct (walk_lazy_trace R t p k payload tb1 Hk (fun x ser label act Hx => Hact t tb x ser label act eq_refl Ht Hx)
+                  (seq 0 (length (t_slots tb))) w1 w2 Ht1 Hlz Hw) as (Htr & Htb & Hpr & Hl2).
+      unfold get_table in H. rewrite Htb in H. fold (get_table w1 t) in H. rewrite Ht1 in H. inversion H; subst w'. clear H.
+      cbn [put_table set_tables w_trace w_tables w_props]. split; [exact Htr|]. split; [|split; [exact Hpr|exact Hl2]].
+      rewrite Htb. unfold w1, put_table; cbn. rewrite upd_upd. apply upd_same.
+      unfold get_table in Ht. rewrite Ht. destruct tb; cbn in *; subst; reflexivity.
+    Qed.
+
+    Theorem lazy_set_protocol f w p v pr w' :
+      NOACT w -> lazyw w -> lookup (w_props w) p = Some pr -> v <> pr_value pr -> set_helper fn rtl (S f) w p v = (w', None) ->
+      w_trace w' = rev (map (fun label => EvNotify label KChanged [v] (Some v)) (PropProofs.all_labels w (pr_changed pr)))
+                   ++ rev (map (fun label => EvNotify label KAbout [pr_value pr; v] (Some (pr_value pr))) (PropProofs.all_labels w (pr_about pr)))
+                   ++ w_trace w /\
+      lookup (w_props w') p = Some (prop_set_value pr v) /\ (forall q, q <> p -> lookup (w_props w') q = lookup (w_props w) q).
+    Proof.
+      intros Hna Hlz Hp Hne H. cbn [set_helper] in H. rewrite Hp in H.
+      destruct (Z.eqb_spec v (pr_value pr)) as [E|_]; [contradiction|].
+      assert (Hact : forall w0, w_tables w0 = w_tables w -> forall ot t tb x ser label act, ot = Some t -> get_table w0 t = Some tb ->
+                       nth_error (t_slots tb) x = Some (Some (ser, SObs label act)) -> act = None).
+      { intros w0 E0 ot t tb x ser label act _ Ht Hx. apply (Hna t x ser label act).
+        exists (t_slots tb), (t_free tb), (t_alive tb). split; [unfold tview, get_table in *; rewrite <- E0, Ht; reflexivity|exact Hx]. }
+      destruct (emit fn rtl (set_helper fn rtl f) w (pr_about pr) p KAbout [pr_value pr; v]) as [w1 [e|]] eqn:He1; [discriminate H|].
+      destruct (emit_lazy_trace _ w (pr_about pr) p KAbout _ w1 (or_introl eq_refl) (Hact w eq_refl (pr_about pr)) Hlz He1) as (Htr1 & Htb1 & Hpr1 & Hlz1).
+      rewrite Hpr1, Hp in H.
+      set (w2 := set_props w1 (bind_key (w_props w) p (prop_set_value pr v))) in *.
+      cbn [prop_set_value pr_changed] in H.
+      assert (Hlz2 : lazyw w2) by exact Hlz1.
+      destruct (emit_lazy_trace _ w2 (pr_changed pr) p KChanged _ w' (or_intror eq_refl) (Hact w2 Htb1 (pr_changed pr)) Hlz2 H) as (Htr3 & Htb3 & Hpr3 & _).
+      assert (Hv2 : values w2 p = Some v) by (unfold values, w2; cbn [set_props w_props]; rewrite lookup_bind_same; reflexivity).
+      assert (Hv0 : values w p = Some (pr_value pr)) by (unfold values; rewrite Hp; reflexivity).
+      assert (Hl2 : PropProofs.all_labels w2 (pr_changed pr) = PropProofs.all_labels w (pr_changed pr)).
+      { unfold PropProofs.all_labels, get_table, w2; cbn. rewrite Htb1. reflexivity. }
+      split.
+      - rewrite Htr3, Hv2, Hl2. change (w_trace w2) with (w_trace w1). rewrite Htr1, Hv0. reflexivity.
+      - rewrite Hpr3. unfold w2; cbn [set_props w_props]. split; [apply lookup_bind_same|intros q Hq; apply lookup_bind_other; assumption].
+    Qed.
+
+    (* Binding::evaluate with a result different from the current value: every about-to-change observer of the property is called once
+       with (current, new) while get() is still the current value, then every changed observer once with the new value while get()
+       already returns it, in connection order - and no other observer of anything *)
+    Theorem lazy_evaluate_announces_change f w b x q pr t v lg w' :
+      LSC w -> get_bind w b = Some x -> b_target x = Some q -> lookup (w_props w) q = Some pr ->
+      eval fn rtl (values w) (b_root x) = (t, inl v, lg) -> v <> pr_value pr ->
+      binding_evaluate fn rtl (set_helper fn rtl (S f)) w b = (w', None) ->
+      notes w' = rev (map (fun label => EvNotify label KChanged [v] (Some v)) (PropProofs.all_labels w (pr_changed pr)))
+                 ++ rev (map (fun label => EvNotify label KAbout [pr_value pr; v] (Some (pr_value pr))) (PropProofs.all_labels w (pr_about pr)))
+                 ++ notes w /\
+      values w' q = Some v.
+    Proof.
+      intros (Hinv & Hna & Hsi & Hal) Hb Htg Hq He Hne H. unfold binding_evaluate in H. rewrite Hb, He, Htg in H.
+      set (w1 := log_fns lg (put_bind w b (bind_with_root x t))) in *.
+      assert (Etb : w_tables w1 = w_tables w) by (unfold w1; rewrite tables_log_fns; reflexivity).
+      assert (Hna1 : NOACT w1).
+      { intros t0 pos ser label act (sl & fr & al & Hv & Hn). apply (Hna t0 pos ser label act). exists sl, fr, al. split; [|exact Hn].
+        unfold tview, get_table in *. rewrite <- Etb. exact Hv. }
+      assert (Hlz1 : lazyw w1).
+      { intros c z Hz. unfold w1 in Hz. rewrite PropMixed.get_bind_log_fns in Hz. rewrite (get_bind_put_root _ _ _ _ c Hb) in Hz.
+        destruct (Nat.eqb b c); [|exact (proj2 Hal _ _ Hz)]. inversion Hz; subst z. cbn [bind_with_root b_evp]. exact (proj2 Hal _ _ Hb). }
+      assert (Hq1 : lookup (w_props w1) q = Some pr) by (unfold w1; rewrite PropProofs.log_fns_props; exact Hq).
+      destruct (lazy_set_protocol f w1 q v pr w' Hna1 Hlz1 Hq1 Hne H) as (Htr & Hst & _).
+      assert (El : forall ot, PropProofs.all_labels w1 ot = PropProofs.all_labels w ot) by (intros ot; unfold PropProofs.all_labels, get_table; rewrite Etb; reflexivity).
+      split.
+      - unfold notes. rewrite Htr, !filter_app, !El. fold (notes w1). unfold w1. rewrite notes_log_fns.
+        assert (Fa : forall (g : nat -> event) l, (forall a, is_note (g a) = true) -> filter is_note (rev (map g l)) = rev (map g l)).
+        { intros g l Hg. assert (G : forall l0 : list event, (forall e, In e l0 -> is_note e = true) -> filter is_note l0 = l0).
+          { induction l0 as [|e0 l0 IH0]; intros Hall; cbn; [reflexivity|]. rewrite (Hall e0 (or_introl eq_refl)), IH0; [reflexivity|intros; apply Hall; right; assumption]. }
+          apply G. intros e Hi. apply in_rev in Hi. apply in_map_iff in Hi. destruct Hi as (a & <- & _). apply Hg. }
+        rewrite !Fa by (intros; reflexivity). reflexivity.
+      - unfold values. rewrite Hst. reflexivity.
     Qed.
 
     (* ... in every world reached by a history of PropMoveLazy.grow_op_lazy3 operations no premise is left *)
